@@ -23,10 +23,16 @@ MANIFEST = {
 WORKER = os.path.join(os.path.dirname(os.path.dirname(os.path.abspath(__file__))), "c36_worker.py")
 
 
+OFFDOMAIN = {}  # factory -> run-time arguments outside the domain of C36_cache_sound
+
+
 def worker(seq):
   env = dict(os.environ)
   p = subprocess.run([sys.executable, WORKER, json.dumps(seq)], capture_output=True, text=True, timeout=900, env=env)
   for line in p.stdout.splitlines():
+    if line.startswith("C36ARGS "):
+      for k, v in json.loads(line[8:]).items():
+        OFFDOMAIN.setdefault(k, []).extend(x for x in v if x not in OFFDOMAIN.get(k, []))
     if line.startswith("C36RESULT "):
       return json.loads(line[10:])
   raise RuntimeError("C36 worker failed: " + (p.stderr[-1500:] or p.stdout[-500:]))
@@ -41,6 +47,8 @@ def experiment(res, nseq, seqlen):
   with ThreadPoolExecutor(max_workers=8) as ex:
     alone = {r[0]["config"]: r[0] for r in ex.map(lambda c: worker([c]), cfgs)}
     seqs = [["box_prim", "box_ccd", "box_prim"]]  # the directed history of the repaired defect
+    # key-neighbour histories: configurations that differ in ONE factory argument, both orders
+    seqs += [["ell_sparse_condim4", "ell_sparse_condim6", "ell_sparse_condim3"], ["ell_sparse_condim6", "ell_sparse_condim3", "ell_sparse_condim4"]]
     for _ in range(nseq - 1):
       seqs.append([cfgs[i] for i in rng.choice(len(cfgs), seqlen, replace=True)])
     results = list(ex.map(worker, seqs))
@@ -69,10 +77,17 @@ def run(res):
     prev = f["sequence"][: f["position"]]
     key = "C36:process-history:primitive-dispatch-registry" if f["config"] == "box_ccd" and "box_prim" in prev else f"C36:process-history:{f['config']}"
     res.violation(key, f"configuration {f['config']} gives a different result after {prev} ran in the same process (nacon {f['in_sequence']['nacon']} vs {f['alone']['nacon']} alone)", f)
+  res.obligation(
+    "every run-time argument of a @cache_kernel factory lies in the domain of C36_cache_sound (bool / int / enum / str / TileSet / lists of those)",
+    not OFFDOMAIN,
+    json.dumps(OFFDOMAIN)[:600],
+  )
+  if OFFDOMAIN and not fails:
+    propkit.broken_proof_violation(res, "C36_cache_sound argument-domain hypothesis (an argument is hashed by its .size only)", ["run-time factory arguments"], OFFDOMAIN)
   if not ok and not fails:
     detail = {"mutated_globals": [list(p) for p in sk.pairs], "sites": [list(x) for x in sk.detail]} if sk is not None else None
     propkit.broken_proof_violation(res, "C36 registry / global-state obligations", failing, detail)
-  res.assumptions += ["str and tuple hashes injective (hypotheses of C36_cache_sound)", "int / enum factory arguments are non-negative (sizes, enum values)", "Warp's on-disk kernel cache and LLVM are outside the model"]
+  res.assumptions += ["str and tuple hashes injective (hypotheses of C36_cache_sound)", "int / enum factory arguments are non-negative (sizes, enum values)", "wp.Function objects passed in lists are hashed by identity (injective in one process)", "Warp's on-disk kernel cache and LLVM are outside the model"]
 
 
 def replay(res, path):
